@@ -66,39 +66,29 @@ def run(R):
                         "or forced on a condition other than `the row was accepted`)" % (g.path, "; ".join(sorted(set(problems)))), [rs[0].loc()])
         else:
             R.ok("C11.compose", nm, "execute_update()? then, exactly if it returned true, execute_result()", g.loc())
-    # ---- arm table
+    # ---- arm table (path facts on the view of ExecutionEngine::execute: a `match (update, result)`, an if-chain, or a mode enum
+    #      computed from the config by a helper all give the same facts)
     ef = R.need_fn(ENG + "execute")
+    efa = PR.facts(ef)
     want = {"execute_aggregate": {"update": True, "result": True}, "execute_aggregate_update": {"update": True, "result": False},
             "execute_aggregate_result": {"update": False, "result": True}}
     for cal, w in sorted(want.items()):
-        cs = PR.calls_matching(ef, ENG.replace("::", "::") + cal + "$")
-        cs = [c for c in cs if short(c.name) == ENG + cal]
-        if len(cs) != 1:
-            R.violation("C11.arms", cal + "|count", "ExecutionEngine::execute calls %s %d times" % (cal, len(cs)), [ef.loc()])
+        cs = [c for c in ef.calls if short(c.name) == ENG + cal]
+        if not cs:
+            R.violation("C11.arms", cal + "|count", "ExecutionEngine::execute never calls %s" % cal, [ef.loc()])
             continue
-        got = {}
-        for gsw, lab, tgt in F.guards_dominating(ef, cs[0].bb):
-            info = F.switch_info(ef, gsw)
-            if info and info[0] == "bool":
-                pos, os_ = F.bool_edge_polarity(ef, gsw, lab)
-                for o in os_:
-                    if o.place is not None and isinstance(o.place, dict) and "p" in o.place:
-                        for fld in ("update", "result"):
-                            if fld in place_fields(o.place):
-                                got.setdefault(fld, pos)
-                d = ef.blocks[gsw]["term"]["discr"]
-                if d["k"] in ("copy", "move"):
-                    for (i2, s2) in [(i, s) for i, s in ef.stmts() if s["k"] == "assign" and s["pl"]["l"] == d["pl"]["l"] and not s["pl"]["p"]]:
-                        rv = s2["rv"]
-                        src = rv.get("op", {}).get("pl") if rv["k"] == "use" else (rv.get("o", {}).get("pl") if rv["k"] == "unop" else None)
-                        if src:
-                            for fld in ("update", "result"):
-                                if fld in place_fields(src):
-                                    got.setdefault(fld, pos if rv["k"] == "use" else pos)
-        if got == w:
-            R.ok("C11.arms", cal, "guards %s" % got, cs[0].loc())
-        else:
-            R.violation("C11.arms", cal + "|guards", "%s is dispatched under config %s, expected %s" % (cal, got, w), [cs[0].loc()])
+        for c in cs:
+            got = {}
+            for key_, val in efa.at(c.bb):
+                a_ = efa.atoms.get(key_, {})
+                if a_.get("kind") == "place" and isinstance(val, bool):
+                    fe = [e for e in a_["place"]["p"] if isinstance(e, dict) and "f" in e]
+                    if fe and (fe[-1].get("adt") or "").endswith("execution_engine::ExecutionConfig") and fe[-1].get("n") in ("update", "result"):
+                        got[fe[-1]["n"]] = val
+            if got == w:
+                R.ok("C11.arms", cal, "guards %s" % got, c.loc())
+            else:
+                R.violation("C11.arms", cal + "|guards", "%s is dispatched under config %s, expected %s" % (cal, got, w), [c.loc()])
     # ---- repeatability of the result phase
     rf = R.need_fn(AGGE + "execute_result")
     reach = P.reachable([rf])
